@@ -129,7 +129,11 @@ def gen_case(ctx, k):
         net["reactions"] = [{"eq": "%s -> %s" % (labs[o1], labs[o2]), "k+": 1.0, "k-": 0.25},
                             {"eq": "%s + %s -> %s" % (labs[q], labs[o1], labs[o2]), "k+": 0.5, "k-": 0}][:rng.randint(1, 2)]
     state = [float(rng.choice([0, 1, 2, 3, 5, 8])) for _ in range(ns * n)]
-    return {"net": net, "space": space, "kind": kind, "seed": rng.randint(0, 2 ** 31 - 1), "state": state, "tmax": 1e9,
+    tau_dt = 1 / 2048
+    if any(s.get("chstt") is True for s in net["species"][:2]) and ns >= 3 and len(net["reactions"]) <= 2 and \
+            all(r["eq"].count("+") <= 1 and "2 " not in r["eq"] and "3 " not in r["eq"] for r in net["reactions"]):
+        tau_dt = 1 / 32        # low-order network: a larger leap so that reactions actually fire in every cell
+    return {"tau_dt": tau_dt, "net": net, "space": space, "kind": kind, "seed": rng.randint(0, 2 ** 31 - 1), "state": state, "tmax": 1e9,
             "edge": info["edge"] if kind == "grid" else list(info["edge"])}
 
 
@@ -203,7 +207,7 @@ def run(ctx):
         for option in ("euler", "tauleap", "gillespie"):
             c = dict(b)
             c["option"] = option
-            c["dt"] = 1 / 1024 if option == "euler" else 1 / 2048
+            c["dt"] = 1 / 1024 if option == "euler" else (b.get("tau_dt", 1 / 2048) if option == "tauleap" else 1 / 2048)
             c["max_iter"] = {"euler": ctx.n(60, 400), "tauleap": ctx.n(25, 200), "gillespie": ctx.n(150, 3000)}[option]
             cases.append(c)
     # successive simulations on ONE engine object: same species labels and reaction count, other stoichiometry
